@@ -442,10 +442,12 @@ def explore_all(ctx, progs, reductions, extra_cfg=(), timeout=180):
         return run_simgrid_mc(ctx, j[0] * 10 + reductions.index(j[1]), progs[j[0]], j[1], extra_cfg, min(timeout, 45) if fragile else timeout)
     res = dict(zip(jobs, vlib.parallel_map(one, jobs, nproc=8)))
     for (i, red), r in list(res.items()):
-        if has_rand(progs[i]) and red in ("sdpor", "odpor") and (r["timeout"] or r["crash"]):
-            how = "crash" if r["crash"] else "hang"
+        died = any(t and t[-1].get("e") == "end" and t[-1].get("how") in ("abort", "signal", "exception") for t in r["traces"])
+        if has_rand(progs[i]) and red in ("sdpor", "odpor") and (r["timeout"] or r["crash"] or died):
+            how = "crash" if (r["crash"] or died) else "hang"
             ctx.violation("reduction %s on a program with MC_random: %s" %
-                          (red, "the checker dies on 'Actor -1 does not exist in state'" if r["crash"] else "the exploration does not terminate (45 s)"),
+                          (red, "the checker dies on 'Actor -1 does not exist in state'" if r["crash"] else
+                           "an application process aborts during the exploration" if died else "the exploration does not terminate (45 s)"),
                           files={"program.json": json.dumps(progs[i]), "program.txt": K.prog_to_txt(progs[i]), "simgrid-mc.out": r["out"][-4000:]},
                           signature="C38:mc-random:%s:%s" % (red, how), detail=json.dumps(K.prog_brief(progs[i])))
             del res[(i, red)]
